@@ -1,5 +1,7 @@
 import BqVerif.Proofs.GatesUnitary
 import BqVerif.Proofs.GatesGrad
+import BqVerif.Proofs.GatesQudit
+import BqVerif.Proofs.GatesEmbed
 import BqVerif.Proofs.GatesWitness
 import BqVerif.Model.GateShapeTable
 import BqVerif.Generated.GateShapes
@@ -416,6 +418,166 @@ theorem C18_grad_ccp_0 {S : Type} [CommRing S] (K : Consts S) (t : Ang S) (ε : 
 example : ∃ ε : ZMod 4, ε ≠ 0 ∧ ε * ε = 0 := ⟨2, by decide, by decide⟩
 
 -- END GENERATED FAMILIES
+
+
+/-! ## Qudit gates -/
+
+/-- `ShiftGate(d)` is unitary for every radix `d` -/
+theorem C18_unitary_shift (d : Nat) : IsUnitary d (shiftGate d : M R) := unitary_shift d
+
+/-- `ClockGate(d)`: unitary for every unimodular `w`, in particular `w = e^{2πi/d}` -/
+theorem C18_unitary_clock (d : Nat) (w : R) (hw : w * star w = 1) : IsUnitary d (clockGate w) :=
+  unitary_clock d w hw
+example : ∃ w : ℂ, w * star w = 1 ∧ w ≠ 1 := ⟨-1, by simp, by norm_num⟩
+
+/-- `PDGate(index, d)` (as coded: the phase is `-w^(2·index)`) -/
+theorem C18_unitary_pd (d : Nat) (w : R) (hw : w * star w = 1) (index : Nat) :
+    IsUnitary d (pdGate w index) := unitary_pd d w hw index
+example : ∃ w : ℂ, w * star w = 1 ∧ w ≠ 1 := ⟨-1, by simp, by norm_num⟩
+
+/-- `SubSwapGate(d, "a,b;c,e")`: swapping the basis states `i = a·d+b`, `j = c·d+e` -/
+theorem C18_unitary_subSwap (n i j : Nat) (hi : i < n) (hj : j < n) :
+    IsUnitary n (subSwap i j : M R) := unitary_subSwap n i j hi hj
+example : ∃ n i j : Nat, i < n ∧ j < n ∧ i ≠ j := ⟨9, 1, 6, by decide, by decide, by decide⟩
+
+/-- `CSUMGate(d)` for the radixes of the property's sweep (checked permutation, `decide`) -/
+theorem C18_unitary_csum (d : Nat) (hd : d ∈ [2, 3, 4, 5]) :
+    IsUnitary (d * d) (csumGate d : M R) := by
+  simp only [List.mem_cons, List.not_mem_nil, or_false] at hd
+  rcases hd with rfl | rfl | rfl | rfl <;> exact mono_one_unitary _ _ (by decide +kernel)
+example : (3 : Nat) ∈ [2, 3, 4, 5] := by decide
+
+/-- `SwapGate(d)` for radix 2–5 -/
+theorem C18_unitary_swapD (d : Nat) (hd : d ∈ [2, 3, 4, 5]) :
+    IsUnitary (d * d) (swapD d : M R) := by
+  simp only [List.mem_cons, List.not_mem_nil, or_false] at hd
+  rcases hd with rfl | rfl | rfl | rfl <;> exact mono_one_unitary _ _ (by decide +kernel)
+example : (5 : Nat) ∈ [2, 3, 4, 5] := by decide
+
+/-- every `PermutationGate(n, location)` with `n ≤ 3` (all ordered locations) -/
+def permCases : List (Nat × List Nat) := [(1, [0]), (2, [0]), (2, [1]), (2, [0, 1]), (2, [1, 0]), (3, [0]), (3, [1]), (3, [2]), (3, [0, 1]), (3, [0, 2]), (3, [1, 0]), (3, [1, 2]), (3, [2, 0]), (3, [2, 1]), (3, [0, 1, 2]), (3, [0, 2, 1]), (3, [1, 0, 2]), (3, [1, 2, 0]), (3, [2, 0, 1]), (3, [2, 1, 0])]
+
+theorem C18_unitary_perm (c : Nat × List Nat) (hc : c ∈ permCases) :
+    IsUnitary (2 ^ c.1) (permGate c.1 c.2 : M R) := by
+  have h : ∀ c ∈ permCases, permOK (2 ^ c.1) (Graph.permFromLocation c.1 2 c.2) = true := by
+    decide +kernel
+  exact colmono_unitary _ _ (h c hc)
+example : (3, [2, 0]) ∈ permCases := by decide
+
+/-! ## Composed gates (generic in the inner gate) -/
+
+/-- `DaggerGate`: `get_unitary` is the conjugate transpose, it is unitary, and it inverts the
+inner gate (this is also the default `get_inverse` of every gate) -/
+theorem C18_dagger {n : Nat} {U : M R} (hU : IsUnitary n U) :
+    toM n (dagger U) = (toM n U)ᴴ ∧ IsUnitary n (dagger U) ∧ toM n (dagger U) * toM n U = 1 :=
+  ⟨toM_dagger n U, hU.dagger, dagger_mul_self hU⟩
+example : ∃ U : M ℂ, IsUnitary 2 U := ⟨_, C18_unitary_sx K0 K0_valid⟩
+
+/-- `DaggerGate.get_grad`: for a real displacement `ε` the dagger of the first-order expansion is
+the first-order expansion of the dagger -/
+theorem C18_dagger_grad (ε : R) (hε : star ε = ε) (U G V : M R)
+    (hV : ∀ i j, V i j = U i j + ε * G i j) :
+    ∀ i j, dagger V i j = dagger U i j + ε * dagger G i j := by
+  intro i j; simp [dagger, Conj.conj, hV, hε]
+example : ∃ ε : ℂ, star ε = ε ∧ ε ≠ 0 := ⟨1, by simp, by simp⟩
+
+/-- `ControlledGate.get_unitary`, `kron(ctrl, U) + kron(1 - ctrl, 1)` with `ctrl` from
+`build_control_proj`, is the block form of the documentation for some activation predicate
+on the control values, and it is unitary (for every number `cd` of control values) whenever
+the inner gate is -/
+theorem C18_controlled (c : Nat × List Nat) (rest : List (Nat × List Nat)) (d : Nat) (hd : 0 < d)
+    (U : M R) (hU : IsUnitary d U) :
+    (∃ act : Nat → Bool, ctrlU d (ctrlProj (c :: rest)).2 U = ctrlBlock d act U) ∧
+    ∀ cd, IsUnitary (cd * d) (ctrlU d (ctrlProj (c :: rest)).2 U) := by
+  obtain ⟨act, hact⟩ := ctrlProj_is_proj (R := R) c rest
+  rw [hact, ctrlU_eq_block]
+  exact ⟨⟨act, rfl⟩, fun cd => ctrlBlock_unitary cd d hd act U hU⟩
+example : ∃ (d : Nat) (U : M ℂ), 0 < d ∧ IsUnitary d U :=
+  ⟨2, _, by decide, C18_unitary_sx K0 K0_valid⟩
+
+/-- `ControlledGate.get_grad = kron(ctrl, grad)` is the first-order coefficient -/
+theorem C18_controlled_grad {S : Type} [CommRing S] (d : Nat) (P U G V : M S) (ε : S)
+    (hV : ∀ i j, V i j = U i j + ε * G i j) :
+    ∀ I J, ctrlU d P V I J = ctrlU d P U I J + ε * ctrlG d P G I J := by
+  intro I J; simp only [ctrlU, ctrlG, kron, addM, hV]; ring
+
+/-- `PowerGate`, non-negative power: the `k`-fold product of a unitary is unitary (for a negative
+power the code takes the dagger first, `C18_dagger`) -/
+theorem C18_power_unitary {n : Nat} {U : M R} (hU : IsUnitary n U) (k : Nat) :
+    IsUnitary n (powM n U k) ∧ toM n (powM n U k) = toM n U ^ k :=
+  ⟨hU.powM k, toM_powM n U k⟩
+example : ∃ U : M ℂ, IsUnitary 2 U := ⟨_, C18_unitary_sx K0 K0_valid⟩
+
+/-- `PowerGate.get_unitary_and_grad`: square-and-multiply on (unitary, gradient) pairs returns
+the `k`-fold product under the product rule; its unitary part is `U^k`, and if the pair is the
+first-order expansion of a perturbed matrix `P` (`ε² = 0`) the result is the first-order expansion
+of `P^k` — i.e. its gradient part is the derivative of the power -/
+theorem C18_power {S : Type} [CommRing S] (n : Nat) (x : UG S) (k : Nat) (hk : 0 < k) :
+    powUG n x k = linPow n x (k - 1) ∧
+    toM n (powUG n x k).u = toM n x.u ^ k ∧
+    ∀ (ε : S) (P : Matrix (Fin n) (Fin n) S), ε * ε = 0 → Expands n ε P x →
+      Expands n ε (P ^ k) (powUG n x k) := by
+  have h := powUG_eq_linPow n x k hk
+  have hk' : k - 1 + 1 = k := by omega
+  refine ⟨h, ?_, ?_⟩
+  · rw [h, linPow_u, hk']
+  · intro ε P hε hx
+    rw [h, ← hk']; exact hx.linPow hε (k - 1)
+example : ∃ k : Nat, 0 < k := ⟨3, by decide⟩
+
+/-- `FrozenParameterGate.get_full_params`: for frozen indices that are distinct, `< num_params`
+and taken in sorted order (what the constructor and `check_parameters` guarantee), the full
+vector has `num_params` entries, carries every frozen value at its index, and removing the
+frozen positions leaves exactly the free parameters in their order -/
+theorem C18_frozen {β : Type} (ps : List β) (fr : List (Nat × β))
+    (hs : (fr.map (·.1)).Pairwise (· < ·)) (hb : ∀ p ∈ fr, p.1 < ps.length + fr.length) :
+    (fullParams ps fr).length = ps.length + fr.length ∧
+    (∀ p ∈ fr, (fullParams ps fr)[p.1]? = some p.2) ∧
+    fr.foldr (fun p l => l.eraseIdx p.1) (fullParams ps fr) = ps :=
+  have hv := validFrozen_of_sorted fr ps.length hs hb
+  ⟨fullParams_length fr ps, fullParams_frozen fr ps hv, fullParams_free fr ps hv⟩
+example : ∃ (ps : List Nat) (fr : List (Nat × Nat)), fr ≠ [] ∧ ps ≠ [] ∧
+    (fr.map (·.1)).Pairwise (· < ·) ∧ ∀ p ∈ fr, p.1 < ps.length + fr.length :=
+  ⟨[10, 11], [(0, 7), (2, 8)], by decide, by decide, by decide, by decide⟩
+
+/-- the frozen gate is the inner gate at the full parameter vector (by definition), hence
+unitary whenever the inner gate is unitary at every parameter vector -/
+theorem C18_frozen_unitary (v : GVal R) (fr : List (Nat × Ang R))
+    (hv : ∀ ps, IsUnitary v.dim (v.u ps)) (ps : List (Ang R)) :
+    (GVal.frozen fr v).u ps = v.u (fullParams ps fr) ∧
+    IsUnitary (GVal.frozen fr v).dim ((GVal.frozen fr v).u ps) :=
+  ⟨rfl, hv _⟩
+example : ∃ v : GVal ℂ, ∀ ps, IsUnitary v.dim (v.u ps) :=
+  ⟨GVal.const [2] (sx K0), fun _ => C18_unitary_sx K0 K0_valid⟩
+
+/-- `EmbeddedGate.get_unitary` (`_map_matrix` into the identity): for a level map that is
+one-to-one into `[0, D)` the embedded matrix is unitary whenever the inner gate is -/
+theorem C18_embedded (d D : Nat) (t : Nat → Nat) (U : M R)
+    (ht : ∀ i, i < d → t i < D) (hinj : ∀ i, i < d → ∀ j, j < d → t i = t j → i = j)
+    (hU : IsUnitary d U) : IsUnitary D (embed d t eye U) :=
+  embed_unitary d D t U ht hinj hU
+example : ∃ (t : Nat → Nat) (U : M ℂ), (∀ i, i < 2 → t i < 3) ∧
+    (∀ i, i < 2 → ∀ j, j < 2 → t i = t j → i = j) ∧ IsUnitary 2 U :=
+  ⟨fun i => 2 * i, _, by decide, by decide, C18_unitary_sx K0 K0_valid⟩
+
+/-- `EmbeddedGate.get_grad` (`_map_matrix` into the zero matrix) is the first-order coefficient -/
+theorem C18_embedded_grad {S : Type} [CommRing S] (d : Nat) (t : Nat → Nat) (U G V : M S) (ε : S)
+    (hV : ∀ i j, V i j = U i j + ε * G i j) :
+    ∀ I J, embed d t eye V I J = embed d t eye U I J + ε * embed d t zeroM G I J := by
+  intro I J
+  simp only [embed_apply]
+  cases pre d t I <;> cases pre d t J <;> simp [hV, zeroM]
+
+/-- `TaggedGate` is the inner gate -/
+theorem C18_tagged (v : GVal R) : GVal.tagged v = v := rfl
+
+/-- `U3Gate.get_inverse() = U3Gate()` with `get_inverse_params = [-θ, -λ, -φ]` -/
+theorem C18_inverse_u3 (K : Consts R) (hK : K.Valid) (t p l : Ang R)
+    (ht : t.Valid) (hp : p.Valid) (hl : l.Valid) :
+    toM 2 (u3 K t.neg l.neg p.neg) * toM 2 (u3 K t p l) = 1 :=
+  inverse_u3 K hK t p l ht hp hl
+example : ∃ (K : Consts ℂ) (t p l : Ang ℂ), K.Valid ∧ t.Valid ∧ p.Valid ∧ l.Valid :=
+  ⟨K0, a0, a0, a0, K0_valid, a0_valid, a0_valid, a0_valid⟩
 
 /-! ## Shape table -/
 
